@@ -38,15 +38,21 @@ def mutants(src):
 def run(mid, prop, diff, props):
     tmp = tempfile.mkdtemp(prefix='mx-')
     try:
-        files = re.findall(r'^\+\+\+ b/(\S+)', open(diff).read(), re.M)
-        for f in files:
+        text = open(diff).read()
+        files = re.findall(r'^\+\+\+ b/(\S+)', text, re.M)
+        deleted = re.findall(r'^--- a/(\S+)\n\+\+\+ /dev/null', text, re.M)
+        for f in files + deleted:
             os.makedirs(os.path.dirname(os.path.join(tmp, f)), exist_ok=True)
             if os.path.exists('/repo/' + f):
                 shutil.copy('/repo/' + f, os.path.join(tmp, f))
         r = subprocess.run(['patch', '-p1', '-s', '-d', tmp, '-i', diff], capture_output=True, text=True)
         if r.returncode != 0:
             return mid, {p: 'PATCH-FAILS' for p in props}
-        ov = ','.join('/repo/%s=%s' % (f, os.path.join(tmp, f)) for f in files)
+        for f in deleted:
+            # a deleted file: the overlay cannot remove it, an empty file of the same package is equivalent
+            pk = re.search(r'^package\s+(\w+)', open('/repo/' + f).read(), re.M).group(1)
+            open(os.path.join(tmp, f), 'w').write('package %s\n' % pk)
+        ov = ','.join('/repo/%s=%s' % (f, os.path.join(tmp, f)) for f in files + deleted)
         res = {}
         for p in props:
             r = subprocess.run([os.environ.get('QEDLINT','/verif/bin/qedlint'), '-prop', p, '-noevidence', '-overlay', ov], capture_output=True, text=True)
